@@ -108,4 +108,6 @@ FIXED_BY_SUBJECT = {
    ('C11', 'a definite length of sys.maxsize (or one octet more, after the BIT STRING pad octet) gave PyAsn1Error from file/gzip/raw substrates but underrun from bytes/BytesIO: input 03 88 80 00 00 00 00 00 00 00 + filler')],
  "fix: base 8 and base 16 REAL encoding lost mantissa digits for negative exponents": [
    ('C01', 'a REAL type asking for base 8/16 (binEncBase) with a negative exponent not divisible by 3 (4) and a mantissa beyond 2**53 decoded to a different number: e.g. binEncBase=8, (-835794846692677909421, 2, -2)')],
+ "fix: float(), repr() and comparisons of a REAL with a huge exponent built the full power first": [
+   ('C08', 'decoding 30 0a 09 08 83 05 7f ff ff ff ff 01 against SEQUENCE (SIZE (2..3)) OF REAL kept one decoder call busy for minutes to hours: the constraint error message prints the REAL, which built 2 ** (2 ** 39) first (found by the C10 thorough tier as a shard that never came back; now decided by the CPU-time guard and the huge-REAL inputs of C08)')],
 }
